@@ -12,750 +12,944 @@ Definition show_fres (r : fres) : string :=
   end.
 Definition check (rs : list rune) : string := digest (show_fres (format_res rs)).
 Definition full (rs : list rune) : string := show_fres (format_res rs).
-Eval vm_compute in ("<<<M1959>>>" ++ check (runes_of_ascii "packet falsey {
-    char[7] Foo @calculatedFrom(""CRC32""),
-    @tag(10)
-    u8 Packet `" ++ [233]%N ++ runes_of_ascii "`,
-    repeat stringy,
-    @lengthOf(float)
-    tag {
-        repeat u8x {
-            int16 charz @lengthOf(trueish),//	t
-            repeat string calculatedFrom,
-            charz @calculatedFrom(""a\""b"") `line1
-            line2`,
-        },
-        u64 MetaDataX @calculatedFrom(""" ++ [128512]%N ++ runes_of_ascii """) `" ++ [233]%N ++ runes_of_ascii "`,
-        rootA {
-            repeat u64 BodyLength `" ++ [233]%N ++ runes_of_ascii "`,
-            pack @calculatedFrom(""{,}"") `" ++ [28040; 24687; 31867; 22411]%N ++ runes_of_ascii "`,
-            repeat x charz,
-        },
-        // a // b
-        char[] packetx,
-    },// `tick` ""quote"" 'q'
-    calculatedFrom,
-    u x_y_z,
-    repeat int i64_,
-    @leftPad(' ')
-    u32 T @calculatedFrom(""{,}""),
-    repeat metadata,
-}
-
-root packet chars {
-    char[65535] pack @lengthOf(As) `tab	here`,
-    char[255] msg_type `// not a comment`,
-    @calculatedFrom(""// no comment"")
-    @tag(0)
-    @tag(10)
-    repeat Header {
-        char[] i64_,
-        repeat T ``,
-        match uint8x as i64_ {
-            00 : _x,
-            65535 : Z9_,
-            ""1"" : u8x,
-            007 : Z9_,
-            255 : matchKey,
-            ""1"" : crc,
-        },
-    },
-    @calculatedFrom(""packet"")
-    match int as x_y_z {
-        0123456789 : Logon,
-        //	t
-        [0123456789, ""it's""] : int,
-        [""a	b"", ""CRC32"", 0, 4294967296, """"] : pack,
-        0 : u,
-    },
-    match string_ as int {
-        0 : repeatCount,
-        [""abc""] : float,
-        007 : msg_type,
-        [""a\""b""] : charz,
-    },
-    i16 MetaDataX `say ""hi""`,
-    repeat u `tab	here`,
-    repeat falsey {
-        repeat i8 lengthOf `a\`,
-        repeatCount @lengthOf(o) `{ , }`,
-    },
-}
-
-packet rootA {
-    calculatedFrom @calculatedFrom(""x y""),
-    char Pad @calculatedFrom(""a\""b"") `" ++ [233]%N ++ runes_of_ascii "`,
-    @leftPad('\x00')
-    repeat float64 tag,
-    // " ++ [27880; 37322]%N ++ runes_of_ascii "
-    @calculatedFrom(""1"")
-    repeat Foo,
-}// " ++ [27880; 37322]%N)).
-Eval vm_compute in ("<<<M1347>>>" ++ check (runes_of_ascii "// top
-options // c0a
-  // c0b
-{ // c1
-ArrayPrefixLenType
-    // c2
-=
-    // c3
-u64 // c4a
-  // c4b
-; // c5
-FixedStringPadFromLeft
-    // c6
-= true
-    // c8
-; // c9a
-  // c9b
-FixedStringPadChar // c10
-=
-    // c11
-'0'
-    // c12
-; }
-    // c14
-packet
-    // c15
-Quote // c16
-{ // c17a
-  // c17b
-} // c18a
-  // c18b
-packet // c19
-Ack // c20a
-  // c20b
-{ repeat // c22
-InNote66 { // c24a
-  // c24b
-u8 // c25a
-  // c25b
-pad0 // c26
-,
-    // c27
-} // c28
-, // c29
-} // c30
-packet
-    // c31
-Reject // c32a
-  // c32b
+Eval vm_compute in ("<<<M1610>>>" ++ check (runes_of_ascii "
+root packet
+    u 
 {
-    // c33
-} // c34a
-  // c34b
-root // c35
-packet // c36a
-  // c36b
-Order
-    // c37
-{ // c38
-Quote // c39
-, repeat // c41
-Reject , // c43a
-  // c43b
-string
-    // c44
-venue
-    // c45
-, string
-    // c47
-seqNo // c48a
-  // c48b
-, // c49
-uint32
-    // c50
-Ref // c51a
-  // c51b
-, // c52a
-  // c52b
-u16 // c53a
-  // c53b
-lastPx
-    // c54
-,
-    // c55
-u32 // c56a
-  // c56b
-clOrdID // c57
-@lengthOf(
-    // c58
-Body ) // c60
-, // c61a
-  // c61b
-match
-    // c62
-lastPx // c63
-as // c64a
-  // c64b
-Body // c65a
-  // c65b
-{ 190 // c67
-: // c68a
-  // c68b
-Reject // c69
-,
-    // c70
-186 : // c72a
-  // c72b
-Quote ,
-    // c74
-22 :
-    // c76
-Ack
-    // c77
-, // c78
-} // c79
-,
-    // c80
-u16 // c81a
-  // c81b
-Flags // c82
-@calculatedFrom( // c83a
-  // c83b
-""CRC32"" ) , // c86
-} // c87a
-  // c87b
-")).
-Eval vm_compute in ("<<<M96>>>" ++ check (runes_of_ascii "packet  int//x
-{
-// " ++ [128512]%N ++ runes_of_ascii " emoji
-//	t
-} packet Z9_ {
-    @tag(  1
-) @tag(00 ) zchar[ 0 ] trueish `// not a comment`
-, Header @lengthOf(
-repeatCount ) // `tick` ""quote"" 'q'
-,charz float`crlf
-line` , match
-lengthOf as	u
-    // c
-    { // `tick` ""quote"" 'q'
-65535  :
-    msg_type
-,""1""
-:
-    // " ++ [27880; 37322]%N ++ runes_of_ascii "
-    x
-    ,
-""a\""b"" : packetx , 10:
-msg_type """ ++ [128512]%N ++ runes_of_ascii """ :
-calculatedFrom [
-7 ,0	]
-    // c
-    : // " ++ [128512]%N ++ runes_of_ascii " emoji
-u128 , }, string i8i8`{ , }` , } packet// @lengthOf(
-a1{ } root packet roots {
-    @lengthOf(
-    // " ++ [128512]%N ++ runes_of_ascii " emoji
-    u )
-f64 Logon,@lengthOf(
-_x	) As
-    @calculatedFrom(""\n"" ) , @leftPad
-// packet A { u8 x, }
-// " ++ [27880; 37322]%N ++ runes_of_ascii "
-(  )repeatCount
-@calculatedFrom( ""{,}""
-)
-`tab	here`
-    // trailing space 
-    , @tag(
-    //x
-    42)char[
-1
-    ]T
-    `a\`
-,int64
-_x// packet A { u8 x, }
-, zchar[	4294967296
-    ]
-i64_ @lengthOf(  tag
-    //	t
-    )
-    `
-`
-    , @calculatedFrom(""a\""b""
-    //x
-    ) u8 len`it's` , @leftPad
-(
-) metadata@lengthOf(tag
-    ) `{ , }` ,@leftPad// packet A { u8 x, }
-( ' '
-) MetaDataX  {
-    repeat char[]	rootA
-    ,
-    // c
-    } ,i8 body ,}
-")).
-Eval vm_compute in ("<<<M1878>>>" ++ check (runes_of_ascii "packet i8i8 {
-    @tag(0)
-    int32 leftPad `it's`,
-    repeat char[] Header `crlf
-    line`,
-    @calculatedFrom(""\" ++ [233]%N ++ runes_of_ascii """)
-    /// triple
-    repeat uint8 float,
-    @rightPad('\x00')
-    char[] zchar @lengthOf(leftPad) `
-    `,
-    Z9_,
-    @lengthOf(x)
-    match As as tag {
-        ""a	b"" : string_,
-        [
-            10, 7, ""1"", 255, 3,
-            42, 0123456789, """ ++ [128512]%N ++ runes_of_ascii """
-        ] : x_y_z,
-        ""CRC32"" : Z9_,
-        00 : Logon,
-    },
-    @tag(007)
-    o {
-        char Packet @lengthOf(repeatCount),
-    },
-    @lengthOf(pack)
-    float64 rootA `two words`,
-    repeat char[] BodyLength,
-}
-
-packet Z9_ {
-    match As as a1 {
-        //
-        0 : trueish,
-    },
-    /// triple
-    // " ++ [27880; 37322]%N ++ runes_of_ascii "
-}
-
-root packet u8x {
-    /// triple
-    // " ++ [128512]%N ++ runes_of_ascii " emoji
-    repeat string Logon `tab	here`,// " ++ [128512]%N ++ runes_of_ascii " emoji
-}
-
-options {
-    _x = ""packet"";
-    f32a = 007
-}
-
-packet i8i8 {
-    @calculatedFrom(""CRC32"")
-    A @lengthOf(a1),
-}")).
-Eval vm_compute in ("<<<M135>>>" ++ check (runes_of_ascii "
-packet crc
-    {@tag(	0)  @calculatedFrom(
-    ""{,}""	) @rightPad ( ' ')	repeat uint8 lengthOf // a // b
-,
-    char[	42 ] float ,
-    repeat a1 // packet A { u8 x, }
-{ match
-x_y_z as charz
-    { [
-00
-, 4294967296,
-//x
-// a // b
-""it's"",""" ++ [28040; 24687]%N ++ runes_of_ascii """ ] ://x
-zchar,	[
-    ""packet"" ,// c
-""x y"",
-""it's"" ,""abc"" ,
-""it's""
-    ] :string_ , 0 : Z9_
-}
-    // `tick` ""quote"" 'q'
-    , // `tick` ""quote"" 'q'
-} ,match u8x
-as//x
-pack {[ 0123456789
-, ""x y""
-] : // c
-trueish /// triple
-, }	,
-    @calculatedFrom( ""a\""b""
-    // c
-    ) repeat string_ `a\`,
-packetx@calculatedFrom(
-""`tick`"" ) , int64 chars `say ""hi""` , @calculatedFrom(
-""a	b"" )@leftPad (  '\x00'
-) @lengthOf(
-    repeatCount)u64
-    falsey@calculatedFrom( ""\" ++ [233]%N ++ runes_of_ascii """
-    )
-,
-repeat Header { repeat
-    metadata , char[] chars`" ++ [28040; 24687; 31867; 22411]%N ++ runes_of_ascii "` , zchar[ 10] x_y_z `a\` ,	},
-// trailing space 
-// c
-}
-")).
-Eval vm_compute in ("<<<M1944>>>" ++ check (runes_of_ascii "packet float {
-    char[] u8x @lengthOf(roots),
-}
-
-MetaData leftPad {
-    string a1,
-}
-
-root packet pack {
-    falsey,
-    /// triple
-    match Logon as trueish {
-        ""packet"" : Foo,
-        """" : len,
-        0123456789 : i64_,
-        ""it's"" : packetx,
-        255 : len,
-    },
-    repeat As As `" ++ [233]%N ++ runes_of_ascii "`,
-    @tag(3)
-    uint32 a1,
-    repeat zchar[4294967296] pack,
-    @leftPad(' ')
-    zchar @lengthOf(string_) `// not a comment`,
-    repeat int,
-    repeat i8i8 {
-        u64 tag `say ""hi""`,
-        u8x,
-        char trueish,
-        repeat float32 stringy `line1
-                line2`,
-    },
-    match o as o {
-        007 : float,
-    },
-    // packet A { u8 x, }
-    // c
-    repeat Pad,
-    // " ++ [27880; 37322]%N ++ runes_of_ascii "
-    // trailing space 
-}")).
-Eval vm_compute in ("<<<M216>>>" ++ check (runes_of_ascii "// " ++ [27880; 37322]%N ++ runes_of_ascii "
-packet chars {match
-charz
+    match crc
 as
-    // trailing space 
-    A // trailing space 
-{0123456789: rootA ,
-    42
-:
-    x , ""1"" :Logon , 7 :u , ""\n"" : packetx , }, char[]MetaDataX
-@calculatedFrom(""""
-) `" ++ [233]%N ++ runes_of_ascii "`
-    // trailing space 
-    ,	@leftPad( ' ' )  char[] Foo,
-    crc , f64 string_ , // " ++ [128512]%N ++ runes_of_ascii " emoji
-char[]
-packetx,i64 u8x@lengthOf(  stringy ) `// not a comment`, repeat zchar {
-repeat
-A _x , lengthOf	@lengthOf( u8x
-) ,	match A as matchKey { 3 :Z9_ , ""// no comment"": As 00 //x
-:
-i64_ ,
-// a // b
+leftPad 
+{ [00]: 	 //
+	o
+
+,
+42 
+	/// triple
+  	:  
+      // trailing space 
+  //x
+crc[ ""a	b""
+,	""CRC32"" 
+,	""a\""b""
+,	""\n""
+, 0 
+,255
+    ]
+:// packet A { u8 x, }
+	zchar
+	,
+
 // " ++ [128512]%N ++ runes_of_ascii " emoji
-""a\\""  :i64_ , [ ""`tick`""/// triple
-] : T ,
-    }
+  //
+  }  //	t
+
 ,
-// a // b
-// packet A { u8 x, }
-uint32 T
-`" ++ [28040; 24687; 31867; 22411]%N ++ runes_of_ascii "`
-    , }
-    , uint64
-    /// triple
-    charz
-, }")).
-Eval vm_compute in ("<<<M1466>>>" ++ check (runes_of_ascii "packet BodyLength {
-    @rightPad('\x00')
-    u8x,
-    @tag(007)
-    @calculatedFrom(""packet"")
-    repeat uint8x x_y_z,
-}
 
-MetaData A {
-    // packet A { u8 x, }
-    Z9_ f32a,
-    zchar[255] msg_type `say ""hi""`,
-    char[1] Logon `tab	here`,//
-}
+    string
 
-packet uint8x {
-    @calculatedFrom(""" ++ [28040; 24687]%N ++ runes_of_ascii """)
-    @tag(65535)
-    u32 int @lengthOf(u8x) `say ""hi""`,
-    @leftPad(' ')
-    stringy {
-        string_ A,
-        char[4294967296] i8i8 `" ++ [233]%N ++ runes_of_ascii "`,
-        char[] Logon,
-        string x_y_z @lengthOf(Packet),
-    },
-    zchar[4294967296] int `{ , }`,
-}
+    stringy @lengthOf(  matchKey)	, int,@tag(1
 
-// trailing space 
-// " ++ [27880; 37322]%N ++ runes_of_ascii "
-packet u8x {
-}
-// a // b")).
-Eval vm_compute in ("<<<M296>>>" ++ check (runes_of_ascii "MetaData u128
-{  zchar[ 3 ] matchKey	`crlf
-line` //
-, } // packet A { u8 x, }
-options
-{ //x
-} root	packet rootA
-    { @calculatedFrom(
-    ""{,}"" ) repeat u16 len ,repeat body,i8i8 @lengthOf( packetx),metadata int `line1
-line2` ,  uint8x `two words` // c
-, int16 //
-x_y_z
-, repeatCount , Logon {  repeat// trailing space 
-i8 Packet `line1
-line2`
-, } ,}
-options
-{// " ++ [128512]%N ++ runes_of_ascii " emoji
-lengthOf
-//
-// trailing space 
-= ' ' ;
-i64_ = ""{,}"" ; msg_type
-= '0'
-; u=
-// packet A { u8 x, }
-// " ++ [27880; 37322]%N ++ runes_of_ascii "
-i32;_x = ""abc""
-    // packet A { u8 x, }
-    ; }
-")).
-Eval vm_compute in ("<<<M1472>>>" ++ check (runes_of_ascii "// top
-packet MDSnapshotZZ {
-    // c2
-    u8 a,// c5a
-    // c5b
-}// c6
+    )repeat
+    zchar[
 
-packet OrderACK {
-    // c9a
-    // c9b
-    u16 b,
-    // c12
-}// c13a
+4294967296 ]  roots
 
-// c13b
-packet HTTPServerInfo {
-    // c16
-    string s,
-    // c19
-}
+, @leftPad
+	( 
+'\x00'
 
-// c20
-root packet FIXMsg {
-    u8 KType,// c27a
-    // c27b
-    MDSnapshotZZ,// c29a
-    // c29b
-    repeat OrderACK,// c32a
-    // c32b
-    match KType as Body {
-        // c37
-        1 : HTTPServerInfo,
-        2 : OrderACK,
-    },
-    // c47
-}// c48a
-// c48b")).
-Eval vm_compute in ("<<<M1372>>>" ++ check (runes_of_ascii "options {
-    LittleEndian = true;
-    StringPrefixLenType = u64;
-    ArrayPrefixLenType = u16;
-    FixedStringPadFromLeft = false;
-    FixedStringPadChar = ' ';
-}
-packet Logon {
-    zchar[5] Side2,
-}
-root packet Logout {
-    repeat i64 Tail,
-    Logon,
-    repeat i16 OrderId,
-    char[] venue,
-    uint64 x,
-    repeat i16 count,
-    u8 Flags,
-    match Flags as Body {
-        25 : Logon,
-    },
-    u16 Qty @calculatedFrom(""CRC32""),
-}
-")).
-Eval vm_compute in ("<<<M220>>>" ++ check (runes_of_ascii "root
-    packet string_{
-//	t
+    ) x 
 //x
-i16 o /// triple
-,
-    @tag( 4294967296
-)
-repeat char o ,Foo {match MetaDataX // trailing space 
-as leftPad
-    { 0123456789 : calculatedFrom ,
-[ 0 ]
-: u128}
-, repeat
-u
-// `tick` ""quote"" 'q'
-// @lengthOf(
-{
-    zchar[65535]body@lengthOf( float  )
-,o , asx @calculatedFrom( ""{,}"" ) `it's` // `tick` ""quote"" 'q'
-,}// `tick` ""quote"" 'q'
-,
-} ,  }
-")).
-Eval vm_compute in ("<<<M1805>>>" ++ check (runes_of_ascii "
-options
-	{	LittleEndian
-=
-true
-    ;
+@lengthOf(crc
+	)
+,	}packet// c
+		repeatCount
 
+    { 
+zchar[ 255
+
+] f32a
+	@calculatedFrom(
+
+""x y"" ) ,@tag(
+
+    255 
+)
+char[]asx@calculatedFrom(
+    """ ++ [28040; 24687]%N ++ runes_of_ascii """  
+      // " ++ [27880; 37322]%N ++ runes_of_ascii "
+)
+    ,	leftPad	{ 
+	    /// triple
+	// a // b
+  repeat	int
+
+u8x
+
+    ,
+    i64	trueish
+	@lengthOf(i8i8
+) 
+`" ++ [28040; 24687; 31867; 22411]%N ++ runes_of_ascii "` 
+// a // b
+
+,
+    repeat
+	int64 	 //	t
+  pack
+
+    , 
+}
+, match 
+float	as o	{ //
+		65535:
+    Pad
+
+    ,
+
+[
+""" ++ [128512]%N ++ runes_of_ascii """ , 
+""" ++ [28040; 24687]%N ++ runes_of_ascii """
+
+    , 0123456789
+
+] 
+//x
+
+  // @lengthOf(
+	:i8i8 , 7:	asx
+    00 :
+	stringy },
+	@calculatedFrom(
+
+    """ ++ [233]%N ++ runes_of_ascii "t" ++ [233]%N ++ runes_of_ascii """ )
+    f32a
+// packet A { u8 x, }
+	  // trailing space 
+	u  , 
+repeat
+
+msg_type`" ++ [233]%N ++ runes_of_ascii "`,
+
+    repeat zchar[
+42
+
+    ] crc ,
+
+    uint64 
+    // " ++ [27880; 37322]%N ++ runes_of_ascii "
+    lengthOf
+,  repeat As``
+, zchar[	007
+]tag`tab	here`,
+	}
+	root
+
+    packet  charz
+{
+	string	msg_type, @calculatedFrom( 
+""""
+
+) 
+repeat  //	t
+	string
+
+tag `tab	here`  , repeat calculatedFrom  , repeat
+	Foo ,
+uint64
+    Foo  @lengthOf(  packetx  ),
+	@rightPad( )
+	match
+    falsey
+	as
+	calculatedFrom	{	[ 0
+
+    ,
+    10
+
+, ""a\""b""
+
+]:metadata	, } 
+, @calculatedFrom(
+""\" ++ [233]%N ++ runes_of_ascii """ ) i64 As ``
+
+    , @lengthOf(
+
+rootA)
+	u32
+
+Logon 	 // c
+  @lengthOf(a1
+	)
+	,
+
+    @calculatedFrom(
+
+    """"
+)@leftPad (
+	' '	)
+
+uint16
+    i8i8 @calculatedFrom(
+""// no comment""
+
+    ) ,
+}
+root
+    packet	// trailing space 
+    uint8x {
+	repeat
+
+f32
+chars
+    `tab	here`
+,
+
+}MetaData calculatedFrom  { 
+
+//
+    	// `tick` ""quote"" 'q'
+	  metadata	crc ,
+}")).
+Eval vm_compute in ("<<<M257>>>" ++ check (runes_of_ascii "options
+{
+BodyLength
+=3 ;// " ++ [128512]%N ++ runes_of_ascii " emoji
+T = ""packet""
+// @lengthOf(
+// trailing space 
+;
+// c
+// trailing space 
+crc = true ;
+falsey= '\x00'/// triple
+;
+} root packet A
+    {@leftPad (
+'0' )	char[
+65535 ] Header  `" ++ [233]%N ++ runes_of_ascii "` ,
+@rightPad( '0' ) //
+a1 @lengthOf( msg_type ) , @lengthOf( rootA )
+    match
+_x as //x
+stringy {""CRC32"" : chars, 3// `tick` ""quote"" 'q'
+:float , 255	:	asx // `tick` ""quote"" 'q'
+, 10  : tag ,//
+} ,
+    @calculatedFrom(
+    """ ++ [128512]%N ++ runes_of_ascii """	) u32 u8x`crlf
+line` , repeat char[]	asx `a\` , @rightPad ( '0'	)match f32a  as Packet
+    { [ 255 , ""CRC32"" , 007
+, ""1"",""packet"" , 00 ,
+    4294967296 ]	: calculatedFrom , ""packet"" :
+    falsey, ""a\""b"": body , 7// a // b
+: Packet // " ++ [128512]%N ++ runes_of_ascii " emoji
+0123456789 :	i64_ ,
+    // a // b
+    [4294967296 , 0123456789 ]  : // `tick` ""quote"" 'q'
+options1	} ,crc /// triple
+@lengthOf(	Foo
+    )
+    ,
+@calculatedFrom( ""{,}"")@lengthOf(metadata ) @lengthOf( i8i8
+)int64 options1 @calculatedFrom(""CRC32"" )
+    `line1
+line2` , // @lengthOf(
+} packet a1 // `tick` ""quote"" 'q'
+{ match lengthOf//
+as x_y_z
+{ ""it's"" :matchKey
+//
+// @lengthOf(
+, 10 :
+Packet , [ //x
+""abc""
+    ]// a // b
+: A 10 //x
+: metadata
+    ,
+    } ,
+}MetaData
+    body { char string_, char[]
+x, len Pad , string
+    leftPad , } // trailing space ")).
+Eval vm_compute in ("<<<M1462>>>" ++ check (runes_of_ascii "  packet
+
+pack { 
+@lengthOf( 
+Foo 
+    // c
+	)
+
+    asx 
+@lengthOf(
+
+_x )/// triple
+	,
+    u8	x_y_z `two words` , repeat zchar[
+    0]	roots
+
+`
+` 
+
+// `tick` ""quote"" 'q'
+, lengthOf	@calculatedFrom(
+""abc""  ) ,
+	@tag(
+
+3)
+
+@rightPad
+
+    ( ' '
+	)
+
+@calculatedFrom( ""1""
+    //x
+    // " ++ [27880; 37322]%N ++ runes_of_ascii "
+	)repeat
+    uint64
+i64_  // trailing space 
+
+	`say ""hi""`	// @lengthOf(
+
+	,@tag(007
+
+) 
+match	roots 
+as
+
+float
+
+{  ""a	b""
+
+:
+lengthOf ,[1
+    ,	// @lengthOf(
+  ""\n"" , ""a\""b"" ,
+
+""\" ++ [233]%N ++ runes_of_ascii """ ,
+
+""1""  , 42
+]
+    :	msg_type
+,""" ++ [128512]%N ++ runes_of_ascii """:  Foo}
+,  T//x
+
+{ match 
+Header
+
+as  trueish
+    {
+
+[
+    // `tick` ""quote"" 'q'
+    // @lengthOf(
+
+  0  ,
+	3 // @lengthOf(
+, ""{,}""  , ""1""
+,
+
+    00
+,
+
+0123456789,
+	""// no comment""] :
+
+    As, }  ,  } ,
+repeat
+    char[ 10]o
+	`
+`  ,  @calculatedFrom( 
+    //
+""`tick`""//x
+    ) repeat
+    crc  {
+    repeatCount o
+,u8x
+	As ,
+} , } packet
+pack  {@calculatedFrom( 
+""" ++ [233]%N ++ runes_of_ascii "t" ++ [233]%N ++ runes_of_ascii """
+	)
+
+u32
+f32a
+,  }
+MetaData 
+float
+
+{
+u32 options1 , } 
+packet f32a
+    {	} ")).
+Eval vm_compute in ("<<<M1373>>>" ++ check (runes_of_ascii "  options{	FixedStringPadFromLeft  =
+    true
+    ; FixedStringPadChar
+
+=  '0'
+    ;	} packet
+	Leg {	repeat InSym93
+    {
+
+zchar[
+3 ]
+Acct, string
+Side2,
+    i32	Flags,	f32  Note
+	, 
+i32
+	msgKind 
+,  }
+    ,	f64 Note
+    ,
+    uint16
+
+Px ,
+
+}
+packet
+	Quote
+
+{  zchar[	2  ]
+OrderId
+
+    ,}
+
+    packet Ack
+
+{
+repeat
+    string
+    lastPx  ,
+zchar[
+
+4  ]  price,
+
+uint32
+
+OrderId,Quote  , int8  Acct
+    ,
+} packet
+Fill
+{repeat
+	Leg, 
+@rightPad
+	(	'0' 
+)  char[11 ]Note  ,	f64
+
+Px  ,@rightPad ( 
+'\x00'	)  char[5 ] Flags
+    ,
+zchar[	9
+]
+x  , string 
+msgKind , }	root packet
+	Order{ 
+Leg
+
+, repeat
+    Ack,
+	@rightPad (
+	'\x00'	)	char[ 3 ]Side2
+
+    ,
+	repeat 
+char[ 1]  seqNo  ,
+
+u16 clOrdID, match
+
+    clOrdID 
+as
+Body{198:Leg
+    ,
+	23
+
+: Quote,
+	13 
+:Ack ,	159 
+:  Fill
+
+,
+	} , 
+u32
+venue
+    @calculatedFrom(
+
+""CRC32""
+    ) ,
+}
+")).
+Eval vm_compute in ("<<<M1629>>>" ++ check (runes_of_ascii "options
+
+    {
+StringPrefixLenType  =
+u16	;
+	ArrayPrefixLenType=
+	u32
+;
+	FixedStringPadFromLeft =
+    true  ; FixedStringPadChar
+
+=
+
+'0'
+    ;  }
+
+    packet
+	Cancel
+    {}
+	packet 
+Party {
+
+    }	packet Logon
+    {
+
+} 
+packet
+    Ack{ }
+	packet 
+Logout {repeat
+
+InSym87
+
+    {
+
+InClordid94{	string	clOrdID ,}  , string Px,	i16
+
+    Qty ,
+repeat
+InCount71
+{
+
+    repeat Cancel
+, 
+uint16
+
+    Tail
+
+    , char[
+2 ]
+    x , repeat
+    string
+    Ref ,
+
+    }, Cancel
+,
+} , 
+}
+	root packet Order
+{
+
+    repeat string
+    tag7 ,
+    @leftPad	( ' '
+
+)
+char[
+    3
+
+]
+    Px
+,
+	u8
+
+    Qty  , match
+
+Qty
+	as  Body
+    {
+[ 28
+
+    ,
+62] :
+Logon,
+
+    148 :Ack  , 
+88: 
+Party  , 184 :
+    Cancel	, }
+, 
+u16
+
+    Note	@calculatedFrom( ""CR\
+C32""	)
+	, }")).
+Eval vm_compute in ("<<<M192>>>" ++ check (runes_of_ascii "// trailing space 
+options { f32a=
+false;	stringy=	true
+;
+u=  ""\" ++ [233]%N ++ runes_of_ascii """  ;
+    stringy = false;
+} packet options1 // " ++ [27880; 37322]%N ++ runes_of_ascii "
+{
+} MetaData
+packetx { f32 uint8x  ,  } root packet zchar {
+@tag( 4294967296
+) @lengthOf(a1
+)
+i8
+_x
+`it's` ,//x
+char[]	o , body
+    ,
+zchar[ 65535] msg_type
+`crlf
+line` , repeat
+    BodyLength{ repeat char[ 65535
+    ] stringy,
+},
+@calculatedFrom( """ ++ [128512]%N ++ runes_of_ascii """
+) @tag( 10
+    // a // b
+    ) repeat f32
+lengthOf`line1
+line2` , repeat  u {
+    uint32 Z9_, //
+repeat body
+`
+` , }  , @tag( 4294967296
+) i64_ @lengthOf( tag
+    // packet A { u8 x, }
+    ), @lengthOf(//	t
+float) @lengthOf(
+    // " ++ [128512]%N ++ runes_of_ascii " emoji
+    packetx	) @calculatedFrom( """ ++ [128512]%N ++ runes_of_ascii """
+)	repeat x_y_z u  ,@tag( 65535 )u8
+A	,} //")).
+Eval vm_compute in ("<<<M78>>>" ++ check (runes_of_ascii "options {
+Header	=u32; } options {
+i8i8	=
+    f64 ; body
+    =  zchar[
+// " ++ [128512]%N ++ runes_of_ascii " emoji
+/// triple
+00//
+] ; }
+    //
+    MetaData BodyLength  { // trailing space 
+}// " ++ [27880; 37322]%N ++ runes_of_ascii "
+options
+{ Logon= u64 As =
+    true i64_
+= '\x00' ;
+} root packet asx {
+@tag(
+// `tick` ""quote"" 'q'
+//	t
+4294967296
+    )
+    roots @lengthOf( A ) ,repeat uint8 u128
+    , int32 i64_  ,
+    u8 u `` ,
+@lengthOf(
+// c
+// c
+len ) uint64
+    //x
+    matchKey ,	match rootA
+    as stringy {
+1 : string_, 7 : charz , 255 : u128, [ // trailing space 
+0
+,0123456789 ,1,007  ]: len
+    , 10
+    :trueish } ,
+@rightPad	()
+    char[ 7] int //
+@lengthOf(
+x ) `two words`
+, }")).
+Eval vm_compute in ("<<<M1905>>>" ++ check (runes_of_ascii "options {
+    LittleEndian = false;
+    ArrayPrefixLenType = u8;
+    FixedStringPadFromLeft = true;
+    FixedStringPadChar = '0';
+}
+
+packet Heartbeat {
+    string lastPx,
+    uint8 Qty,
+    i64 Acct,
+    char[4] Ref,
+}
+
+packet Fill {
+    uint8 Ref,
+    Heartbeat,
+    f32 OrderId,
+    repeat f32 x,
+}
+
+root packet Order {
+    zchar[2] OrderId,
+    zchar[2] Acct,
+    zchar[1] Note,
+    zchar[9] Qty,
+    string price,
+    string tag7,
+    u32 x,
+    match x as Body {
+        123 : Fill,
+        112 : Heartbeat,
+    },
+    u32 seqNo @calculatedFrom(""CR\
+    C32""),
+}")).
+Eval vm_compute in ("<<<M1352>>>" ++ check (runes_of_ascii "options {
+    ArrayPrefixLenType = u64;
+    FixedStringPadFromLeft = true;
+    FixedStringPadChar = '0';
+}
+packet Quote {
+}
+packet Ack {
+    repeat InNote66 {
+        u8 pad0,
+    },
+}
+packet Reject {
+}
+root packet Order {
+    Quote,
+    repeat Reject,
+    string venue,
+    string seqNo,
+    uint32 Ref,
+    u16 lastPx,
+    u32 clOrdID @lengthOf(Body),
+    match lastPx as Body {
+        190 : Reject,
+        186 : Quote,
+        22 : Ack,
+    },
+    u16 Flags @calculatedFrom(""CR\
+C32""),
+}
+")).
+Eval vm_compute in ("<<<M253>>>" ++ check (runes_of_ascii "packet
+u	{ @lengthOf( //
+zchar )match Header as len  {
+    42// trailing space 
+:
+    x_y_z ,
+    // " ++ [27880; 37322]%N ++ runes_of_ascii "
+    },rootA	`
+`	,	match u8x as pack {[ 1 , """" ]
+    : float , ""abc""  :
+string_ ,42 :
+    i64_/// triple
+,
+1:zchar
+// trailing space 
+// " ++ [128512]%N ++ runes_of_ascii " emoji
+} ,char[ 3 ] int ,
+match options1 as u128 { [ ""`tick`"" ] : u
+// packet A { u8 x, }
+/// triple
+, } ,	}
+options {	len	= //	t
+i8 // " ++ [27880; 37322]%N ++ runes_of_ascii "
+; zchar = true; } packet T{char[ 42 ] asx@calculatedFrom(""CRC32"" ) , }
+")).
+Eval vm_compute in ("<<<M1604>>>" ++ check (runes_of_ascii "
+
+  packet As	{
+
+    @leftPad
+(
+	)
+char[ 0  ] Logon
+
+    ,  char[ 0
+] Z9_@calculatedFrom( ""abc"" 
+    // c
+),@tag(	4294967296 
+)	i64
+
+matchKey
+
+    @calculatedFrom(
+
+""// no comment"" 	 //
+    	) `two words`,  i16  A
+
+    , }	// " ++ [27880; 37322]%N ++ runes_of_ascii "
+	packet
+T{
+zchar[
+3 ]tag// packet A { u8 x, }
+  @lengthOf(chars)
+
+,  }
+packet// " ++ [128512]%N ++ runes_of_ascii " emoji
+
+BodyLength {
+calculatedFrom @lengthOf(
+	body)
+`
+` 
+,
+
+    } 	 // a // b
+ 
+")).
+Eval vm_compute in ("<<<M114>>>" ++ check (runes_of_ascii "packet
+a1 {@calculatedFrom(""`tick`"" ) uint32 charz	`crlf
+line` ,
+// c
+//x
+a1 `tab	here`, }
+    options
+    {
+// " ++ [27880; 37322]%N ++ runes_of_ascii "
+// " ++ [128512]%N ++ runes_of_ascii " emoji
+stringy =
+// c
+// a // b
+255 ;
+    metadata =	4294967296 pack
+    = /// triple
+string	; crc= string
+    ; }  root  packet
+crc	{ @tag(  42  )
+@calculatedFrom( ""abc""  )
+@rightPad ( '0'
+) u128 u8x
+/// triple
+//x
+,@lengthOf(len) uint16 int, }
+")).
+Eval vm_compute in ("<<<M1596>>>" ++ check (runes_of_ascii "
+
+  root packet
+
+chars	{ string
+    T
+
+`say ""hi""` 
+,@tag(1
+
+    ) body
+
+    {	repeat
+	o
+
+{ f64 
+Packet	@calculatedFrom( ""a\\""
+    ) , 
+},} ,
     } packet
 
-    Logon 
-{  u8
+pack 
+// @lengthOf(
+	// a // b
+  	{
+    @tag(
 
-    x
-    ,
-    }
+4294967296 	 // `tick` ""quote"" 'q'
 
-    packet 
-Logout  {	u16	reason
-	, }  root
+  )
+repeat
+
+char[]	Logon 
+	// trailing space 
+	,
+	repeat
+	BodyLength
+
+len  , 
+        // c
+}
+
+")).
+Eval vm_compute in ("<<<M377>>>" ++ check (runes_of_ascii "packet crc {match  trueish
+    as
+len {
+42 : uint8x,// " ++ [128512]%N ++ runes_of_ascii " emoji
+""1"" :asx ,	3
+: body [ ""1"" , 0123456789]: u ""packet"" : o , } , } MetaData tag
+{
+    string
+o `line1
+line2`
+,
+char[] //
+Header `{ , }`// c
+,  uint8x Z9_, } MetaData
+tag
+{ i8 len , }
+    options //x
+{
+// `tick` ""quote"" 'q'
+/// triple
+x= 10;
+}
+")).
+Eval vm_compute in ("<<<M1578>>>" ++ check (runes_of_ascii "
+packet MDSnapshotZZ {  u8
+
+a, 
+} 
 packet
 
-Frame{
-u64	Kind
-    ,
-    u64
-Kind2 ,
+OrderACK {
 
-match Kind
-as
-Body {
-1
-    :
-	Logon 
-,
+    u16 
+b 
+,} packet
+	HTTPServerInfo	{ string s
 
-[  2
-,
-3  ,
-    4  ] :
+    ,	}root
 
-Logout
-, 100 :
+packet 
+FIXMsg 
+{u8  KType
+,MDSnapshotZZ ,  repeat
+    OrderACK
 
-Logon
-    ,
+    , match
+KType as Body {
+1 
+:HTTPServerInfo ,
 
-} , match
+    2
+	:
 
-    Kind2 as Trailer 
-{
-	0 :Logout
-,}
-, } ")).
-Eval vm_compute in ("<<<M1848>>>" ++ check (runes_of_ascii "packet A {
-    u8 a,
+OrderACK	, } ,
 }
-
-packet B {
-    u16 b,
-}
-
-packet C {
-    u32 c,
-}
-
-root packet M {
-    u16 Kc,
-    u16 Kb,
-    u16 Ka,
-    match Kc as X {
-        9 : A,
-        10 : B,
-    },
-    match Kb as Y {
-        2 : C,
-        1 : A,
-    },
-    match Ka as Z {
-        1 : B,
-    },
-    A,
-    B,
-    C,
-}")).
-Eval vm_compute in ("<<<M94>>>" ++ check (runes_of_ascii "MetaData chars{ uint64	A, msg_type asx
-    // c
-    , Z9_  a1,
-    stringy
-    i64_ //
-`doc` , }packet
-/// triple
-// a // b
-x_y_z {	} options {
-float // c
-=float32 rootA= false ;
-repeatCount// c
-=  char[ 10 ]
-; }	packet Z9_{zchar[007 ]
-    //	t
-    charz // c
-,
-} //x")).
-Eval vm_compute in ("<<<M1306>>>" ++ check (runes_of_ascii "// top
-packet // c0a
-  // c0b
-orderItem // c1a
-  // c1b
-{ u8 // c3
-a // c4
-, // c5a
-  // c5b
-}
-    // c6
-root packet // c8a
-  // c8b
-newOrder // c9a
-  // c9b
-{ orderItem // c11
-, u8
-    // c13
-x // c14a
-  // c14b
-,
-    // c15
-} // c16
 ")).
-Eval vm_compute in ("<<<M1434>>>" ++ check (runes_of_ascii "packet A {
-    match k as n {
-        ""x\
-                y"" : B,
-        [""x\
-                y"", 1] : C,
-        [
-            1, 2, 3, 4, 5,
-            ""x\
-                        y""
-        ] : D,
+Eval vm_compute in ("<<<M308>>>" ++ check (runes_of_ascii "options { pack// `tick` ""quote"" 'q'
+= 0123456789
+}
+packet metadata { @leftPad ( ' ' ) stringy
+@lengthOf( _x )
+    , repeat	u8
+int
+    `{ , }` ,
+@leftPad //	t
+('0' ) repeat char msg_type `it's`,
+} MetaData x_y_z { // trailing space 
+}")).
+Eval vm_compute in ("<<<M1808>>>" ++ check (runes_of_ascii "packet Logon {
+    string user,
+}
+
+root packet Frame {
+    u8 K,
+    match K as Body {
+        1 : Logon,
+        2 : Logout,
     },
+    Tail,
+}
+
+packet Logout {
+    u16 reason,
+}
+
+packet Tail {
+    u32 crc,
 }")).
 Eval vm_compute in ("<<<M357>>>" ++ check (runes_of_ascii "MetaData x_y_z
 {
@@ -769,350 +963,280 @@ _x , char[ 4294967296 ] stringy , char[
 , tag u8x `line1
 line2` ,  uint8 u128 , }
 ")).
-Eval vm_compute in ("<<<M60>>>" ++ check (runes_of_ascii "root packet _x
-{ uint32 trueish @calculatedFrom( ""1"" ) `crlf
-line`
-,  }
-    //
-    packet	Header { repeat u64
-stringy `// not a comment` , float32  msg_type ,}
-")).
-Eval vm_compute in ("<<<M438>>>" ++ check (runes_of_ascii "packet uint8x
-{ match pack
-    as msg_type	{
-    0123456789 `it's`	float
-}
-,
-} packet //	t
-a1
-    { } options {packetx
-    = '\x00'	; u128= ""a	b""  ; }
-")).
-Eval vm_compute in ("<<<M456>>>" ++ check (runes_of_ascii "packet uint8x
-{ match pack
-    as msg_type	{
-    0123456789 :	float
-}
-,
-} } packet //	t
-a1
-    { } options {packetx
-    = '\x00'	; u128= ""a	b""  ; }
-")).
-Eval vm_compute in ("<<<M393>>>" ++ check (runes_of_ascii "uint8x packet
-{ match pack
-    as msg_type	{
-    0123456789 :	float
-}
-,
-} packet //	t
-a1
-    { } options {packetx
-    = '\x00'	; u128= ""a	b""  ; }
-")).
-Eval vm_compute in ("<<<M673>>>" ++ check (runes_of_ascii "// @lengthOf(
-packet i8i8 { u128 o , }
-options { MetaDataX = true;
-    BodyLength =""packet"" x_y_z float64 007
-crc //x
-= ""abc"" ;
-    msg_type =
-i16 }")).
-Eval vm_compute in ("<<<M394>>>" ++ check (runes_of_ascii "u32 uint8x
-{ match pack
-    as msg_type	{
-    0123456789 :	float
-}
-,
-} packet //	t
-a1
-    { } options {packetx
-    = '\x00'	; u128= ""a	b""  ; }
-")).
-Eval vm_compute in ("<<<M1720>>>" ++ check (runes_of_ascii "
-MetaData leftPad{ 
-chars
-	MetaDataX
-	,
-	}packet
-repeatCount
-
-{
-
-    char[
-    255 ] 
-uint8x
-`" ++ [233]%N ++ runes_of_ascii "` ,} 
-MetaData 
-    // c
-    pack{ As
-Foo,
-}
-")).
-Eval vm_compute in ("<<<M722>>>" ++ check (runes_of_ascii "// @lengthOf(
-packet i8i8 { u128 o , }
-options { MetaDataX = true;
-    BodyLength =x_y_z ""packet""= 007
-crc //x
-= ""abc"" ;
-    msg_type =
-i16 }")).
-Eval vm_compute in ("<<<M1611>>>" ++ check (runes_of_ascii "
-packet	A	{
-
-    match
-k	as
-    n  {[	""a"" ,  22
-	,
-    ""c c""  ,
-	4
-
-    ,  ""e""
-,  66  ,""g"" ,
-8 
-,	""i""
-,	10 ]	:
-B
-,  2 :
-C
-
-} ,  } ")).
-Eval vm_compute in ("<<<M1266>>>" ++ check (runes_of_ascii "  packet B
-    {
-u8 a
-	,
-    } 
-root  packet
-
-P {
-u8
-    K  ,
-	match
-    K as Body
-
-{
-1
-
-:  B,
-}  ,
-	u16	L@lengthOf(	Body
-
-) ,
-	}
-")).
-Eval vm_compute in ("<<<M1694>>>" ++ check (runes_of_ascii "packet A 
-{
-match k
-as
-
-n
-    {
-	[  ""a"",
-    ""bb""
-	, 
-007	, ""d""
-
-, 
-""e"",66
-
-,""g""	,  ""h""
-
-,
-	9 ,	""j""
-	]	:B	2
-
-: 
-C }
-
-,
+Eval vm_compute in ("<<<M1877>>>" ++ check (runes_of_ascii "packet A {
+    match k as n {
+        [
+            1, ""bb"", 007, ""d"", 5,
+            ""f"", 7, ""h"", 9, ""j"",
+            11, ""l""
+        ] : B,
+        2 : C,
+    },
 }")).
-Eval vm_compute in ("<<<M1145>>>" ++ check (runes_of_ascii "MetaData leftPad // c
-{ chars MetaDataX , } packet repeatCount { char[ 255 ] uint8x `" ++ [233]%N ++ runes_of_ascii "` , } MetaData pack { As Foo , }")).
-Eval vm_compute in ("<<<M1177>>>" ++ check (runes_of_ascii "MetaData leftPad { chars MetaDataX , } packet repeatCount { char[ 255 ] uint8x `" ++ [233]%N ++ runes_of_ascii "` , } MetaData // c
-pack { As Foo , }")).
-Eval vm_compute in ("<<<M346>>>" ++ check (runes_of_ascii "MetaData chars {
-x_y_z
-/// triple
-/// triple
-x
-    `line1
-line2` ,_x A`// not a comment`,	} // `tick` ""quote"" 'q'")).
-Eval vm_compute in ("<<<M962>>>" ++ check (runes_of_ascii "packet A {
+Eval vm_compute in ("<<<M406>>>" ++ check (runes_of_ascii "packet uint8x
+{ match match pack
+    as msg_type	{
+    0123456789 :	float
+}
+,
+} packet //	t
+a1
+    { } options {packetx
+    = '\x00'	; u128= ""a	b""  ; }
+")).
+Eval vm_compute in ("<<<M426>>>" ++ check (runes_of_ascii "packet uint8x
+{ match pack
+    as msg_type	{ {
+    0123456789 :	float
+}
+,
+} packet //	t
+a1
+    { } options {packetx
+    = '\x00'	; u128= ""a	b""  ; }
+")).
+Eval vm_compute in ("<<<M1299>>>" ++ check (runes_of_ascii "packet A {
+    u8 a,
+}
+packet B {
+    u16 b,
+}
+root packet P {
+    u8 K,
+    match K as M {
+        [1, 2] : A,
+        3 : B,
+        7 : A,
+    },
+}
+")).
+Eval vm_compute in ("<<<M517>>>" ++ check (runes_of_ascii "packet uint8x
+{ match pack
+    as msg_type	{
+    0123456789 :	float
+}
+,
+} packet //	t
+a1
+    { } options {packetx
+    = '\x00'	; u128""a	b"" =  ; }
+")).
+Eval vm_compute in ("<<<M666>>>" ++ check (runes_of_ascii "// @lengthOf(
+packet i8i8 { u128 u128 o , }
+options { MetaDataX = true;
+    BodyLength =""packet"" x_y_z= 007
+crc //x
+= ""abc"" ;
+    msg_type =
+i16 }")).
+Eval vm_compute in ("<<<M695>>>" ++ check (runes_of_ascii "// @lengthOf(
+packet i8i8 { u128 o , }
+options { MetaDataX = true;
+    BodyLe@xngth =""packet"" x_y_z= 007
+crc //x
+= ""abc"" ;
+    msg_type =
+i16 }")).
+Eval vm_compute in ("<<<M720>>>" ++ check (runes_of_ascii "// @lengthOf(
+packet i8i8 { u128 o , }
+options { MetaDataX = true;
+    BodyLength =""packet"" =x_y_z 007
+crc //x
+= ""abc"" ;
+    msg_type =
+i16 }")).
+Eval vm_compute in ("<<<M650>>>" ++ check (runes_of_ascii "// @lengthOf(
+packet i8i8 { u128 o , }
+options { MetaDataX = true;
+    BodyLength =""packet"" x_y_z= 007
+crc //x
+=  ;
+    msg_type =
+i16 }")).
+Eval vm_compute in ("<<<M1704>>>" ++ check (runes_of_ascii "packet
+
+A
+	{ u16 len
+
+@lengthOf( body )`tab
+	x` 
+, u32
+    crc@calculatedFrom( ""CRC32""
+
+    ) `tab
+	x`
+
+,
+	string body
+
+    , }
+")).
+Eval vm_compute in ("<<<M1682>>>" ++ check (runes_of_ascii "packet A {
+    match k as n {
+        [
+            1, 22, 007, 4, 5,
+            66, 7
+        ] : B,
+        2 : C,
+    },
+}")).
+Eval vm_compute in ("<<<M1924>>>" ++ check (runes_of_ascii "packet A {
     Inner {
-        u8 x `tab
-	x`,
+        u8 x `x
+        `,
         Deep {
-            u8 y `tab
-	x`,
+            u8 y `x
+            `,
         },
     },
 }")).
-Eval vm_compute in ("<<<M1732>>>" ++ check (runes_of_ascii "packet
-
-    A
-	{ match k
-as n
-
-{
-[
-""a"" 
-,22 ,
-
-""c c""
-,
-4  , ""e"" 
-,
-    66]:	B 2 
-:C
+Eval vm_compute in ("<<<M1172>>>" ++ check (runes_of_ascii "MetaData leftPad { chars MetaDataX , } packet repeatCount { char[ 255 ] uint8x `" ++ [233]%N ++ runes_of_ascii "`
+// c
+, } MetaData pack { As Foo , }")).
+Eval vm_compute in ("<<<M300>>>" ++ check (runes_of_ascii "packet
+Logon  { repeat u {zchar { zchar[ 007
+] a1
+`` ,  x_y_z@calculatedFrom(
+//
+// " ++ [128512]%N ++ runes_of_ascii " emoji
+""{,}""
+    ), }, } ,}
+")).
+Eval vm_compute in ("<<<M901>>>" ++ check (runes_of_ascii "packet A {
+  match k as n {
+    [""a"", ""bb"", 007, ""d"", ""e"", 66, ""g"", ""h"", 9, ""j"", ""k""] : B,
+    2 : C
+  },
+}")).
+Eval vm_compute in ("<<<M353>>>" ++ check (runes_of_ascii "options { _x
+    =
+    ""`tick`""	;matchKey=
+""it's""
+;	options1
+    = u16 ; stringy= true
+    // c
     }
-    ,}
 ")).
-Eval vm_compute in ("<<<M882>>>" ++ check (runes_of_ascii "packet A {
+Eval vm_compute in ("<<<M656>>>" ++ check (runes_of_ascii "// @lengthOf(
+packet i8i8 { u128 o , }
+options { MetaDataX = true;
+    BodyLength =""packet"" x_y_z")).
+Eval vm_compute in ("<<<M872>>>" ++ check (runes_of_ascii "packet A {
   match k as n {
-    [1, ""bb"", 007, ""d"", 5, ""f"", 7, ""h"", 9, ""j""] : B,
+    [""a"", 22, ""c c"", 4, ""e"", 66, ""g"", 8, ""i""] : B
     2 : C
   },
 }")).
-Eval vm_compute in ("<<<M558>>>" ++ check (runes_of_ascii "
-packet
-    asx asx {match u128 as lengthOf
-{
-//	t
-// `tick` ""quote"" 'q'
-255 : x ,
-    } ,	}")).
-Eval vm_compute in ("<<<M639>>>" ++ check (runes_of_ascii "
+Eval vm_compute in ("<<<M603>>>" ++ check (runes_of_ascii "
 packet
     asx {match u128 as lengthOf
 {
 //	t
 // `tick` ""quote"" 'q'
+255 : x x ,
+    } ,	}")).
+Eval vm_compute in ("<<<M564>>>" ++ check (runes_of_ascii "
+packet
+    asx match{ u128 as lengthOf
+{
+//	t
+// `tick` ""quote"" 'q'
 255 : x ,
-    } ,	"" }")).
-Eval vm_compute in ("<<<M604>>>" ++ check (runes_of_ascii "
+    } ,	}")).
+Eval vm_compute in ("<<<M879>>>" ++ check (runes_of_ascii "packet A {
+  match k as n {
+    [1, 22, 007, 4, 5, 66, 7, 8, 9, 10] : B
+    2 : C
+  },
+}")).
+Eval vm_compute in ("<<<M390>>>" ++ check (runes_of_ascii "root packet SimpleMessage {
+	uint16 MsgType `" ++ [28040; 24687; 31867; 22411]%N ++ runes_of_ascii "`,
+	string JsonBody `Json" ++ [23383; 31526; 20018; 28040; 24687; 20307]%N ++ runes_of_ascii "`,
+}")).
+Eval vm_compute in ("<<<M1292>>>" ++ check (runes_of_ascii "
+
+  root
+    packet
+
+P
+
+    {
+	u8
+	s_u8,  repeat  u8 r_u8  , u16
+    b_len, }
+
+")).
+Eval vm_compute in ("<<<M611>>>" ++ check (runes_of_ascii "
 packet
     asx {match u128 as lengthOf
 {
 //	t
 // `tick` ""quote"" 'q'
-255 : , x
-    } ,	}")).
-Eval vm_compute in ("<<<M1507>>>" ++ check (runes_of_ascii "
-root	packet
-    P { u16	a
-
-,
-
-    u32 Sum @calculatedFrom(
-
-    ""CR\
-C32"" 
-)
-, }
+255 : x")).
+Eval vm_compute in ("<<<M890>>>" ++ check (runes_of_ascii "packet A { Inner { match k as n { [1,22,007,4,5,66,7,8,9,10] : B, }, }, }")).
+Eval vm_compute in ("<<<M795>>>" ++ check (runes_of_ascii "packet A {
+  match k as n {
+    [1, 22, ""c c""] : B,
+    2 : C
+  },
+}")).
+Eval vm_compute in ("<<<M246>>>" ++ check (runes_of_ascii "MetaData x {x Packet
+,i32 lengthOf
+, // `tick` ""quote"" 'q'
+}
 ")).
-Eval vm_compute in ("<<<M116>>>" ++ check (runes_of_ascii "root packet Z9_ { repeat lengthOf
-pack , repeat
-    A {	repeatCount`doc` ,
-    },	}")).
-Eval vm_compute in ("<<<M824>>>" ++ check (runes_of_ascii "packet A {
-  match k as n {
-    [""a"", ""bb"", 007, ""d"", ""e""] : B
-    2 : C
-  },
+Eval vm_compute in ("<<<M1791>>>" ++ check (runes_of_ascii "packet i64_ {
+    @tag(0123456789)
+    repeat u16 stringy,
 }")).
-Eval vm_compute in ("<<<M810>>>" ++ check (runes_of_ascii "packet A {
-  match k as n {
-    [""a"", ""bb"", 007, ""d""] : B,
-    2 : C
-  },
+Eval vm_compute in ("<<<M1070>>>" ++ check (runes_of_ascii "packet A { match k as n { 1 : B // a // b 2 : C }, }")).
+Eval vm_compute in ("<<<M1212>>>" ++ check (runes_of_ascii "packet body { i32 f32a `{ , }` ,
+// c
+} options { }")).
+Eval vm_compute in ("<<<M1286>>>" ++ check (runes_of_ascii "
+
+  root
+    packet P{ 
+string
+	s
+
+    , }
+")).
+Eval vm_compute in ("<<<M933>>>" ++ check (runes_of_ascii "MetaData M {
+    u8 x `
+`,
+    T t `
+`,
 }")).
-Eval vm_compute in ("<<<M808>>>" ++ check (runes_of_ascii "packet A {
-  match k as n {
-    [1, 22, ""c c"", 4] : B,
-    2 : C
-  },
-}")).
-Eval vm_compute in ("<<<M1463>>>" ++ check (runes_of_ascii "MetaData x {
-    x Packet,
-    i32 lengthOf,// `tick` ""quote"" 'q'
-}")).
-Eval vm_compute in ("<<<M1712>>>" ++ check (runes_of_ascii "packet
+Eval vm_compute in ("<<<M1409>>>" ++ check (runes_of_ascii "
+
+  packet 
 A
-{ match  k
-	as
-n
-
-{
-
-    [
-    1
-
-]
-: B 2 :	C
-
-},}
+    {
+} 
+    // c" ++ [8192]%N ++ runes_of_ascii "
 ")).
-Eval vm_compute in ("<<<M1624>>>" ++ check (runes_of_ascii "
-
-  MetaData 
-lengthOf	{Header
-
-    o`doc`  ,
-
-    }
-")).
-Eval vm_compute in ("<<<M1552>>>" ++ check (runes_of_ascii "MetaData M {
-    u8 x `a
-    b`,
-    T t `a
-    b`,
+Eval vm_compute in ("<<<M179>>>" ++ check (runes_of_ascii "// `tick` ""quote"" 'q'
+options {}")).
+Eval vm_compute in ("<<<M993>>>" ++ check (runes_of_ascii "packet A {
+ u8 x `d" ++ [133]%N ++ runes_of_ascii "`, // c" ++ [133]%N ++ runes_of_ascii "
 }")).
-Eval vm_compute in ("<<<M341>>>" ++ check (runes_of_ascii "options  { len = // " ++ [128512]%N ++ runes_of_ascii " emoji
-""packet"" int
-= ""abc""}")).
-Eval vm_compute in ("<<<M1445>>>" ++ check (runes_of_ascii "
-options { 
-x
-= ""{,}""matchKey
-=
-    true;
+Eval vm_compute in ("<<<M655>>>" ++ check (runes_of_ascii "// @lengthOf(
+packet i8i8 {")).
+Eval vm_compute in ("<<<M1468>>>" ++ check (runes_of_ascii "
+packet
+A{
+} // c" ++ [8203]%N ++ runes_of_ascii "
+")).
+Eval vm_compute in ("<<<M1110>>>" ++ check (runes_of_ascii "MetaData tag {
+// c
+}")).
+Eval vm_compute in ("<<<M744>>>" ++ check (runes_of_ascii "`" ++ [28040; 24687; 31867; 22411]%N ++ runes_of_ascii "` '0' options")).
+Eval vm_compute in ("<<<M1056>>>" ++ check (runes_of_ascii "packet A {
 }
-
-")).
-Eval vm_compute in ("<<<M772>>>" ++ check (runes_of_ascii "false int8 uint64 @lengthOf( , @leftPad :")).
-Eval vm_compute in ("<<<M1081>>>" ++ check (runes_of_ascii "options { a = 1; // a
- b = 2 // b
- }")).
-Eval vm_compute in ("<<<M1419>>>" ++ check (runes_of_ascii "options {
-    int = char[];
-}
-//")).
-Eval vm_compute in ("<<<M1038>>>" ++ check (runes_of_ascii "packet A {
- u8 x `d" ++ [12]%N ++ runes_of_ascii "`, // c" ++ [12]%N ++ runes_of_ascii "
-}")).
-Eval vm_compute in ("<<<M1910>>>" ++ check (runes_of_ascii "
-
-  packet
-A  {
-
-}
-
-// c" ++ [8232]%N ++ runes_of_ascii "
-")).
-Eval vm_compute in ("<<<M1599>>>" ++ check (runes_of_ascii "// a
-// b
-packet A {
-}")).
-Eval vm_compute in ("<<<M22>>>" ++ check (runes_of_ascii "packet leftPad {
-}")).
-Eval vm_compute in ("<<<M997>>>" ++ check (runes_of_ascii "// c" ++ [5760]%N ++ runes_of_ascii "
-packet A {
-}")).
-Eval vm_compute in ("<<<M172>>>" ++ check (runes_of_ascii "packet
-len { }
-
-")).
-Eval vm_compute in ("<<<M11>>>" ++ check (runes_of_ascii "packet zchar { }")).
-Eval vm_compute in ("<<<M1477>>>" ++ check (runes_of_ascii "
-// " ++ [128512]%N ++ runes_of_ascii " emoji")).
-Eval vm_compute in ("<<<M1030>>>" ++ check (runes_of_ascii "// c" ++ [11]%N)).
+// c" ++ [6158]%N)).
+Eval vm_compute in ("<<<M1226>>>" ++ check (runes_of_ascii "packet // c
+x { }")).
+Eval vm_compute in ("<<<M1528>>>" ++ check (runes_of_ascii "// @lengthOf(")).
+Eval vm_compute in ("<<<M1010>>>" ++ check (runes_of_ascii "// c" ++ [8232]%N)).
+Eval vm_compute in ("<<<M735>>>" ++ check ([0]%N)).
